@@ -31,11 +31,8 @@ type TxnHistory struct {
 }
 
 func C17Profile() dmlgen.Profile {
-	// no unique / secondary indexes on the data tables: the in-memory backend shares index rows between
-	// the committed table and the sessions' private copies, so uncommitted and rolled-back changes
-	// corrupt the committed index (recorded finding C17-rollback-leaves-stale-index, with its own witness)
-	return dmlgen.Profile{Name: "c17", Tables: 2, PKNone: 1, PKSingle: 7, PKComposite: 2, StrKeyP: 0.2, CIP: 0.2, UniqP: 0, UniqMultiP: 0,
-		IdxP: 0, NotNullP: 0.15, DefaultP: 0.2,
+	return dmlgen.Profile{Name: "c17", Tables: 2, PKNone: 1, PKSingle: 7, PKComposite: 2, StrKeyP: 0.2, CIP: 0.2, UniqP: 0.4, UniqMultiP: 0.2,
+		IdxP: 0.3, NotNullP: 0.15, DefaultP: 0.2,
 		W:      map[string]int{"insert": 42, "ignore": 5, "replace": 8, "odku": 6, "update": 24, "delete": 14, "truncate": 0},
 		ReuseP: 0.5, NullP: 0.15, NullNotNull: 0.05, OmitP: 0.25, KeyUpdP: 0.3, MinLen: 30, MaxLen: 30}
 }
@@ -70,12 +67,7 @@ func C17History(seed int64) *TxnHistory {
 		pool = pool[1:]
 		return s
 	}
-	// the DDL statements (implicit commit) create indexes on a table no statement touches
-	const ddlTable = "z9"
-	z := &Table{Cols: []Col{IntCol(), IntCol()}, PK: []int{1}}
-	z.Cols[0].NotNull = true
-	initial[ddlTable] = z.Fix()
-	names := append(append([]string{}, base.Names...), ddlTable)
+	names := base.Names
 	h := &TxnHistory{Names: names, Tables: initial, NSess: 2 + r.Intn(2), Overlap: r.Intn(5) == 0}
 	nidx := 0
 	dml := func(s, n int) []TxnStep {
@@ -132,8 +124,11 @@ func C17History(seed int64) *TxnHistory {
 		case k < 19: // DDL inside a transaction commits implicitly
 			b = append(b, begin(s))
 			b = append(b, dml(s, 1+r.Intn(2))...)
+			// CREATE INDEX on a table in use
+			tn := base.Names[r.Intn(len(base.Names))]
 			nidx++
-			b = append(b, TxnStep{S: s, Op: "ddl", Stmt: CreateIndex(ddlTable, fmt.Sprintf("x%d", nidx), false, []KeyPart{{Col: 2}})})
+			col := 1 + r.Intn(len(initial[tn].Cols))
+			b = append(b, TxnStep{S: s, Op: "ddl", Stmt: CreateIndex(tn, fmt.Sprintf("x%d", nidx), false, []KeyPart{{Col: col}})})
 			b = append(b, dml(s, 1+r.Intn(2))...)
 			b = append(b, end(s))
 		default: // COMMIT / ROLLBACK without a transaction
